@@ -25,6 +25,23 @@ fn replay_file(path: &std::path::Path) -> Result<(String, String, Check), String
     let v: Value = serde_json::from_str(&txt).map_err(|e| format!("bad JSON in {}: {e}", path.display()))?;
     let prop = v["property"].as_str().ok_or("replay file lacks 'property'")?.to_string();
     let sub = v["subcheck"].as_str().ok_or("replay file lacks 'subcheck'")?.to_string();
+    // a case found by a twin build (harness compiled against the libm / mm configuration) is replayed by that build
+    let build = v["build"].as_str().unwrap_or("std");
+    if build != BUILD_CONFIG && TWINS.iter().any(|t| t.0 == build) && BUILD_CONFIG == "std" {
+        let bin = build_twin(build).map_err(|e| format!("twin build {build} failed: {e}"))?;
+        let o = std::process::Command::new(&bin).arg("--replay").arg(path).env("RUST_BACKTRACE", "0").output().map_err(|e| format!("cannot run the {build} twin: {e}"))?;
+        let out = String::from_utf8_lossy(&o.stdout).to_string();
+        return match o.status.code() {
+            Some(0) => Ok((prop, sub, Ok(()))),
+            Some(1) => {
+                let detail = out.lines().find(|l| l.trim_start().starts_with("subcheck=")).unwrap_or("").trim().to_string();
+                let sig = detail.split("signature=").nth(1).and_then(|r| r.split_whitespace().next()).unwrap_or("twin-violation").to_string();
+                let msg = detail.split(" :: ").nth(1).unwrap_or(&detail).to_string();
+                Ok((prop, sub, Err(Fail::new(sig, format!("[{build} build] {msg}")))))
+            }
+            c => Err(format!("the {build} twin exited with {c:?} on {}", path.display())),
+        };
+    }
     let m = find(&prop).ok_or(format!("unknown property {prop}"))?;
     let r = match catch(|| (m.replay)(&sub, &v["case"])) {
         Ok(r) => r,
@@ -64,6 +81,12 @@ fn main() {
         for cfg in rfverif::c20::CONFIGS {
             if let Err(e) = rfverif::c20::build(cfg, "release") {
                 eprintln!("BUILD-FAILED: fpprobe[{cfg}]\n{e}");
+                std::process::exit(2);
+            }
+        }
+        for (cfg, _) in TWINS {
+            if let Err(e) = build_twin(cfg) {
+                eprintln!("BUILD-FAILED: harness twin [{cfg}]\n{e}");
                 std::process::exit(2);
             }
         }
@@ -180,6 +203,86 @@ fn main() {
             Err(e) => format!("second build unavailable: {e}"),
         };
         cx.report("nodebug-build", obs, false, t0.elapsed().as_secs_f64(), &note);
+    }
+
+    // 2c. twin builds: the same check (quick-sized) in a harness compiled against the repository's no_std configurations,
+    //     where code under cfg(not(feature = "std")) / cfg(feature = "libm"|"mm") is what gets compiled
+    if BUILD_CONFIG == "std" && std::env::var_os("RFVERIF_NODEBUG_CHILD").is_none() && std::env::var_os("RFVERIF_TWIN_CHILD").is_none() {
+        let todo: Vec<&str> = TWINS.iter().filter(|t| t.1.contains(&m.id)).map(|t| t.0).collect();
+        // build one after the other (cargo locks), run side by side
+        let mut bins = vec![];
+        for cfg in &todo {
+            match build_twin(cfg) {
+                Ok(b) => bins.push((*cfg, b)),
+                Err(e) => {
+                    eprintln!("BUILD-FAILED: the harness does not build against /repo's current tree in configuration {cfg} (inconclusive)\n{e}");
+                    std::process::exit(2);
+                }
+            }
+        }
+        // children write their evidence elsewhere
+        let outs: Vec<(&str, f64, std::io::Result<std::process::Output>, std::path::PathBuf)> = std::thread::scope(|sc| {
+            let hs: Vec<_> = bins
+                .iter()
+                .map(|(cfg, bin)| {
+                    let evdir = twin_target_dir(cfg).join("evidence");
+                    let _ = std::fs::create_dir_all(&evdir);
+                    let id = m.id;
+                    sc.spawn(move || {
+                        let t0 = Instant::now();
+                        let o = std::process::Command::new(bin)
+                            .args([id, "quick"])
+                            .env("RFVERIF_TWIN_CHILD", cfg)
+                            .env("RFVERIF_EVIDENCE_DIR", &evdir)
+                            .env("VERIF_SEED", format!("{}", seed as i128))
+                            .env("RUST_BACKTRACE", "0")
+                            .output();
+                        (*cfg, t0.elapsed().as_secs_f64(), o, evdir)
+                    })
+                })
+                .collect();
+            hs.into_iter().map(|h| h.join().expect("twin thread")).collect()
+        });
+        for (cfg, secs, o, evdir) in outs {
+            let mut obs = Obs::new();
+            let name = format!("twin-build-{cfg}");
+            let note = match o {
+                Ok(o) => {
+                    let out = String::from_utf8_lossy(&o.stdout).to_string();
+                    let code = o.status.code().unwrap_or(2);
+                    let ev: Value = std::fs::read_to_string(evdir.join(format!("{}.json", m.id))).ok().and_then(|s| serde_json::from_str(&s).ok()).unwrap_or(Value::Null);
+                    let evals = ev["coverage"]["evaluations"].as_u64().unwrap_or(0);
+                    obs.evals_n(evals);
+                    obs.nontrivial_enumerated(ev["coverage"]["distinct_nontrivial"].as_u64().unwrap_or(0));
+                    cx.extra.insert(format!("twin_build_{cfg}"), serde_json::json!({"exit_code": code, "evaluations": evals, "wall_s": ev["wall_s"]}));
+                    match code {
+                        0 => format!("the quick-sized check again in a harness built against retrofire-core --no-default-features --features {cfg}"),
+                        1 => {
+                            let lines: Vec<&str> = out.lines().collect();
+                            for (i, l) in lines.iter().enumerate() {
+                                if let Some(rest) = l.strip_prefix("VIOLATION ") {
+                                    let replay = rest.split("replay=").nth(1).unwrap_or("").trim().to_string();
+                                    let detail = lines.get(i + 1).map(|s| s.trim().to_string()).unwrap_or_default();
+                                    println!("VIOLATION property={} replay={replay}", m.id);
+                                    println!("  (configuration {cfg}) {detail}");
+                                    cx.violations.push(Violation { sub: name.clone(), msg: format!("[{cfg}] {detail}"), replay: std::path::PathBuf::from(replay) });
+                                }
+                            }
+                            format!("configuration {cfg}: VIOLATION")
+                        }
+                        c => {
+                            eprintln!("INCONCLUSIVE: the {cfg} twin of {} exited with {c}: {}", m.id, String::from_utf8_lossy(&o.stderr).lines().filter(|l| !l.starts_with('[')).last().unwrap_or(""));
+                            std::process::exit(2);
+                        }
+                    }
+                }
+                Err(e) => {
+                    eprintln!("HARNESS-ERROR: cannot run the {cfg} twin: {e}");
+                    std::process::exit(2);
+                }
+            };
+            cx.report(&name, obs, false, secs, &note);
+        }
     }
 
     // 3. open findings: say so, once each
